@@ -248,6 +248,26 @@ theorem coherent_touch (F : Fns) (s : St) (d : DMObj) (hc : Coherent F s) (hd : 
     have := hgv g hg
     simp only [this]
 
+/-- coherence does not look at the stored result objects -/
+theorem Coherent.of_fields {F : Fns} {h : Heap} {o o' : Obj} (hc : Coherent F ⟨h, o⟩)
+    (h1 : o'.fc = o.fc) (h2 : o'.nac = o.nac) (h3 : o'.masses = o.masses) (h4 : o'.dataset = o.dataset)
+    (h5 : o'.disps = o.disps) (h6 : o'.dm = o.dm) (h7 : o'.gv = o.gv) : Coherent F ⟨h, o'⟩ := by
+  obtain ⟨c1, c2, c3, c4, c5, c6, c7, c8, c9, c10⟩ := hc
+  simp only at c1 c2 c3 c4 c5 c6 c7 c8 c9 c10
+  constructor <;> simp only [h1, h2, h3, h4, h5, h6, h7] <;> assumption
+
+/-- the synchronised group-velocity object holds the touched dynamical-matrix object -/
+theorem sync_gv_coherent {F : Fns} {s : St} {d : DMObj} (hc : Coherent F s) (hd : s.o.dm = some d) (g : GVObj)
+    (hg : (s.o.gv.map fun g => if g.dm.id = d.id then (⟨touchGonze s.h d⟩ : GVObj) else g) = some g) :
+    g.dm = touchGonze s.h d := by
+  simp only [Option.map_eq_some_iff] at hg
+  obtain ⟨g0, g1, g2⟩ := hg
+  have := hc.gv g0 g1
+  rw [hd] at this
+  have : g0.dm = d := (Option.some.inj this).symm
+  simp only [this, if_true] at g2
+  subst g2; rfl
+
 theorem phonons_eq_spec (F : Fns) (s : St) (hc : Coherent F s) (a : ArrRef) (m : Val) (d : DMObj)
     (hfc : s.o.fc = some a) (hm : s.o.masses = some m) (hd : s.o.dm = some d) :
     phononsOf s.h (touchGonze s.h d) m = specPhonons F false (s.h.cells a) (s.o.nac.map s.h.cells) m := by
@@ -309,6 +329,34 @@ theorem setDMIfFc_reach (F : Fns) (h : Heap) (o : Obj) {r : ArrRef}
   · exact Or.inl hr
   · exact setDM_reach F h o hr
 
+/-! ### queries (and the `run_*` of result objects) never touch the heap or the parameters -/
+theorem query_heap (F : Fns) (s : St) (q : Query) : (step F s (.query q)).1.h = s.h := by
+  cases q with
+  | run d => cases d <;> simp only [step] <;> (repeat' split) <;> rfl
+  | get d => rfl
+  | freq => simp only [step]; split <;> rfl
+  | freqGV => simp only [step]; split <;> rfl
+  | getFc => rfl
+  | getNac => rfl
+  | getMasses => rfl
+  | getDataset => rfl
+  | getDisps => simp only [step]; (repeat' split) <;> rfl
+
+theorem query_params (F : Fns) (s : St) (q : Query) :
+    (step F s (.query q)).1.o.fc = s.o.fc ∧ (step F s (.query q)).1.o.nac = s.o.nac ∧
+    (step F s (.query q)).1.o.masses = s.o.masses ∧ (step F s (.query q)).1.o.dataset = s.o.dataset ∧
+    (step F s (.query q)).1.o.fsf = s.o.fsf := by
+  cases q with
+  | run d => cases d <;> simp only [step] <;> (repeat' split) <;> exact ⟨rfl, rfl, rfl, rfl, rfl⟩
+  | get d => exact ⟨rfl, rfl, rfl, rfl, rfl⟩
+  | freq => simp only [step]; split <;> exact ⟨rfl, rfl, rfl, rfl, rfl⟩
+  | freqGV => simp only [step]; split <;> exact ⟨rfl, rfl, rfl, rfl, rfl⟩
+  | getFc => exact ⟨rfl, rfl, rfl, rfl, rfl⟩
+  | getNac => exact ⟨rfl, rfl, rfl, rfl, rfl⟩
+  | getMasses => exact ⟨rfl, rfl, rfl, rfl, rfl⟩
+  | getDataset => exact ⟨rfl, rfl, rfl, rfl, rfl⟩
+  | getDisps => simp only [step]; (repeat' split) <;> exact ⟨rfl, rfl, rfl, rfl, rfl⟩
+
 /-- the only pre-existing cell an API operation writes is the object's current force-constant array -/
 theorem step_writes_only_fc (F : Fns) (s : St) (op : Op) (r : ArrRef) (hr : r < s.h.next)
     (hfc : s.o.fc ≠ some r) (hds : s.o.dataset ≠ some r) (hop : ∀ v, op ≠ .callerMutates r v) :
@@ -336,10 +384,13 @@ theorem step_writes_only_fc (F : Fns) (s : St) (op : Op) (r : ArrRef) (hr : r < 
       simp [Heap.write, this]
   | newArr v own k => exact alloc_cells_old hr
   | setFc a => simp only [step]; split <;> simp [setDMIfMasses_cells_old F _ _ hr]
-  | produceFc =>
+  | produceFc c =>
     simp only [step]; split
     · rfl
-    · rw [setDMIfMasses_cells_old F _ _ (Nat.lt_succ_of_lt hr)]; exact alloc_cells_old hr
+    · split
+      · rw [setDMIfMasses_cells_old F _ _ (Nat.lt_succ_of_lt hr)]; exact alloc_cells_old hr
+      · rfl
+  | generate k => exact alloc_cells_old hr
   | symmetrizeFc level =>
     simp only [step, inPlace]; split
     · rfl
@@ -348,12 +399,15 @@ theorem step_writes_only_fc (F : Fns) (s : St) (op : Op) (r : ArrRef) (hr : r < 
       have : r ≠ a := fun e => hfc (e ▸ ha)
       simp [Heap.write, this]
   | symmetrizeFcSpaceGroup =>
-    simp only [step, inPlace]; split
+    simp only [step]; split
     · rfl
     · next a ha =>
-      refine Eq.trans (setDMIfMasses_cells_old F _ _ (r := r) (by exact hr)) ?_
-      have : r ≠ a := fun e => hfc (e ▸ ha)
-      simp [Heap.write, this]
+      split
+      · rfl
+      · simp only [inPlace, ha]
+        refine Eq.trans (setDMIfMasses_cells_old F _ _ (r := r) (by exact hr)) ?_
+        have : r ≠ a := fun e => hfc (e ▸ ha)
+        simp [Heap.write, this]
   | cutoff c =>
     simp only [step, inPlace]; split
     · rfl
@@ -380,8 +434,7 @@ theorem step_writes_only_fc (F : Fns) (s : St) (op : Op) (r : ArrRef) (hr : r < 
     · have : r ≠ a := fun e => hop v (by rw [e])
       simp [Heap.write, this]
     · rfl
-  | query q =>
-    cases q <;> simp only [step] <;> (try rfl) <;> (repeat' split) <;> rfl
+  | query q => rw [query_heap]
 
 theorem step_next (F : Fns) (s : St) (op : Op) : s.h.next ≤ (step F s op).1.h.next := by
   cases op with
@@ -394,18 +447,24 @@ theorem step_next (F : Fns) (s : St) (op : Op) : s.h.next ≤ (step F s op).1.h.
       exact Nat.le_trans (Nat.le_succ _) (setDMIfMasses_next F ((s.h.write ds _).alloc _ true .fc) _)
   | newArr v own k => exact Nat.le_succ _
   | setFc a => simp only [step]; split <;> simp [setDMIfMasses_next]
-  | produceFc =>
+  | produceFc c =>
     simp only [step]; split
     · exact Nat.le_refl _
-    · exact Nat.le_trans (Nat.le_succ _) (setDMIfMasses_next F (s.h.alloc _ true .fc) _)
+    · split
+      · exact Nat.le_trans (Nat.le_succ _) (setDMIfMasses_next F (s.h.alloc _ true .fc) _)
+      · exact Nat.le_refl _
+  | generate k => exact Nat.le_succ _
   | symmetrizeFc level =>
     simp only [step, inPlace]; split
     · exact Nat.le_refl _
     · exact setDMIfMasses_next F (s.h.write _ _) _
   | symmetrizeFcSpaceGroup =>
-    simp only [step, inPlace]; split
+    simp only [step]; split
     · exact Nat.le_refl _
-    · exact setDMIfMasses_next F (s.h.write _ _) _
+    · next a ha =>
+      split
+      · exact Nat.le_refl _
+      · simp only [inPlace, ha]; exact setDMIfMasses_next F (s.h.write _ _) _
   | cutoff c =>
     simp only [step, inPlace]; split
     · exact Nat.le_refl _
@@ -425,13 +484,14 @@ theorem step_next (F : Fns) (s : St) (op : Op) : s.h.next ≤ (step F s op).1.h.
       · exact Nat.le_refl _
   | copy => exact Nat.le_refl _
   | callerMutates a v => simp only [step]; split <;> simp [Heap.write]
-  | query q =>
-    cases q <;> simp only [step] <;> (try exact Nat.le_refl _) <;> (repeat' split) <;> exact Nat.le_refl _
+  | query q => rw [query_heap]; exact Nat.le_refl _
 
-theorem touch_reach {h : Heap} {o : Obj} {d : DMObj} {gv' : Option GVObj} {r : ArrRef} (hd : o.dm = some d)
-    (hg : ∀ g, gv' = some g → g.dm.fcRef = d.fcRef ∨ o.gv = some g)
-    (hr : Reach { o with dm := some (touchGonze h d), gv := gv' } r) : Reach o r := by
+theorem touch_reach {h : Heap} {o o' : Obj} {d : DMObj} {r : ArrRef} (hd : o.dm = some d)
+    (h1 : o'.fc = o.fc) (h2 : o'.nac = o.nac) (h3 : o'.dataset = o.dataset) (h4 : o'.dm = some (touchGonze h d))
+    (hg : ∀ g, o'.gv = some g → g.dm.fcRef = d.fcRef ∨ o.gv = some g)
+    (hr : Reach o' r) : Reach o r := by
   unfold Reach at *
+  rw [h1, h2, h3, h4] at hr
   simp only [Option.some.injEq, exists_eq_left'] at hr
   rcases hr with hr | hr | hr | hr | ⟨g, g1, g2⟩
   · exact Or.inl hr
@@ -441,6 +501,15 @@ theorem touch_reach {h : Heap} {o : Obj} {d : DMObj} {gv' : Option GVObj} {r : A
   · rcases hg g g1 with h1 | h1
     · exact Or.inr (Or.inr (Or.inr (Or.inl ⟨d, hd, h1 ▸ g2⟩)))
     · exact Or.inr (Or.inr (Or.inr (Or.inr ⟨g, h1, g2⟩)))
+
+theorem sync_gv {h : Heap} {o : Obj} {d : DMObj} (g : GVObj)
+    (hg : (o.gv.map fun g => if g.dm.id = d.id then (⟨touchGonze h d⟩ : GVObj) else g) = some g) :
+    g.dm.fcRef = d.fcRef ∨ o.gv = some g := by
+  simp only [Option.map_eq_some_iff] at hg
+  obtain ⟨g0, g1, g2⟩ := hg
+  split at g2
+  · left; rw [← g2]; exact touchGonze_fcRef _ _
+  · right; rw [← g2]; exact g1
 
 /-- an operation makes reachable only what was reachable, what the caller names, or fresh cells -/
 theorem step_reach (F : Fns) (s : St) (op : Op) (r : ArrRef) (hr : Reach (step F s op).1.o r) :
@@ -461,12 +530,17 @@ theorem step_reach (F : Fns) (s : St) (op : Op) (r : ArrRef) (hr : Reach (step F
       · unfold Reach at h ⊢; simp only [Op.named, List.mem_singleton]; grind
       · exact Or.inr (Or.inr (Nat.le_of_eq h.symm))
     · exact Or.inl hr
-  | produceFc =>
+  | produceFc c =>
     simp only [step] at hr; split at hr
     · exact Or.inl hr
-    · rcases setDMIfMasses_reach F _ _ hr with h | h
-      · unfold Reach at h ⊢; grind
-      · right; right; rw [h]; exact Nat.le_succ _
+    · split at hr
+      · rcases setDMIfMasses_reach F _ _ hr with h | h
+        · unfold Reach at h ⊢; grind
+        · right; right; rw [h]; exact Nat.le_succ _
+      · exact Or.inl hr
+  | generate k =>
+    simp only [step] at hr
+    unfold Reach at hr ⊢; grind
   | symmetrizeFc level =>
     simp only [step, inPlace] at hr; split at hr
     · exact Or.inl hr
@@ -474,11 +548,15 @@ theorem step_reach (F : Fns) (s : St) (op : Op) (r : ArrRef) (hr : Reach (step F
       · exact Or.inl h
       · exact Or.inr (Or.inr (Nat.le_of_eq h.symm))
   | symmetrizeFcSpaceGroup =>
-    simp only [step, inPlace] at hr; split at hr
+    simp only [step] at hr; split at hr
     · exact Or.inl hr
-    · rcases setDMIfMasses_reach F _ _ hr with h | h
-      · exact Or.inl h
-      · exact Or.inr (Or.inr (Nat.le_of_eq h.symm))
+    · next a ha =>
+      split at hr
+      · exact Or.inl hr
+      · simp only [inPlace, ha] at hr
+        rcases setDMIfMasses_reach F _ _ hr with h | h
+        · exact Or.inl h
+        · exact Or.inr (Or.inr (Nat.le_of_eq h.symm))
   | cutoff c =>
     simp only [step, inPlace] at hr; split at hr
     · exact Or.inl hr
@@ -511,26 +589,46 @@ theorem step_reach (F : Fns) (s : St) (op : Op) (r : ArrRef) (hr : Reach (step F
     simp only [step] at hr; split at hr <;> exact Or.inl hr
   | query q =>
     left
+    have touch : ∀ (d : DMObj) (o' : Obj), s.o.dm = some d → o'.fc = s.o.fc → o'.nac = s.o.nac →
+        o'.dataset = s.o.dataset → o'.dm = some (touchGonze s.h d) →
+        o'.gv = (s.o.gv.map fun g => if g.dm.id = d.id then (⟨touchGonze s.h d⟩ : GVObj) else g) →
+        Reach o' r → Reach s.o r := by
+      intro d o' hd h1 h2 h3 h4 h5 hr'
+      exact touch_reach hd h1 h2 h3 h4 (fun g hg => sync_gv g (h5 ▸ hg)) hr'
+    have same : ∀ (o' : Obj), o'.fc = s.o.fc → o'.nac = s.o.nac → o'.dataset = s.o.dataset → o'.dm = s.o.dm →
+        o'.gv = s.o.gv → Reach o' r → Reach s.o r := by
+      intro o' h1 h2 h3 h4 h5 hr'
+      unfold Reach at hr' ⊢; rw [h1, h2, h3, h4, h5] at hr'; exact hr'
     cases q with
     | freq =>
       simp only [step] at hr; split at hr
-      · next d m hd hm =>
-        refine touch_reach hd ?_ hr
-        intro g hg
-        simp only [Option.map_eq_some_iff] at hg
-        obtain ⟨g0, g1, g2⟩ := hg
-        split at g2
-        · left; rw [← g2]; exact touchGonze_fcRef _ _
-        · right; rw [← g2]; exact g1
+      · next d m hd hm => refine touch d _ hd ?_ ?_ ?_ ?_ ?_ hr <;> rfl
       · exact hr
+    | run dv =>
+      cases dv with
+      | mesh =>
+        simp only [step] at hr; split at hr
+        · next d m hd hm => refine touch d _ hd ?_ ?_ ?_ ?_ ?_ hr <;> rfl
+        · exact hr
+      | band =>
+        simp only [step] at hr; split at hr
+        · next d m hd hm => refine touch d _ hd ?_ ?_ ?_ ?_ ?_ hr <;> rfl
+        · exact hr
+      | tp => simp only [step] at hr; split at hr <;> first | exact hr | (refine same _ ?_ ?_ ?_ ?_ ?_ hr <;> rfl)
+      | dos => simp only [step] at hr; split at hr <;> first | exact hr | (refine same _ ?_ ?_ ?_ ?_ ?_ hr <;> rfl)
+    | get dv => exact hr
     | freqGV =>
       simp only [step] at hr; split at hr
       · next d m hd hm =>
         cases hgv : s.o.gv with
         | none =>
           simp only [hgv, gvOr, if_true] at hr
-          refine touch_reach hd ?_ hr
-          intro g hg; simp only [Option.some.injEq] at hg; left; rw [← hg]; exact touchGonze_fcRef _ _
+          refine touch_reach (h := s.h) hd ?_ ?_ ?_ ?_ ?_ hr
+          · rfl
+          · rfl
+          · rfl
+          · rfl
+          · intro g hg; simp only [Option.some.injEq] at hg; left; rw [← hg]; exact touchGonze_fcRef _ _
         | some g =>
           simp only [hgv, gvOr] at hr
           unfold Reach at hr ⊢
@@ -553,7 +651,7 @@ theorem step_reach (F : Fns) (s : St) (op : Op) (r : ArrRef) (hr : Reach (step F
       · exact hr
       · split at hr
         · exact hr
-        · exact hr
+        · refine same _ ?_ ?_ ?_ ?_ ?_ hr <;> rfl
 
 /-! ### kinds of existing cells never change -/
 theorem setDM_kind_old (F : Fns) (h : Heap) (o : Obj) {r : ArrRef} (hr : r < h.next) :
@@ -579,19 +677,25 @@ theorem step_kind_old (F : Fns) (s : St) (op : Op) (r : ArrRef) (hr : r < s.h.ne
       exact alloc_kind_old (h := s.h.write ds _) hr
   | newArr v own k => exact alloc_kind_old hr
   | setFc a => simp only [step]; split <;> simp [setDMIfMasses_kind_old F _ _ hr]
-  | produceFc =>
+  | produceFc c =>
     simp only [step]; split
     · rfl
-    · refine Eq.trans (setDMIfMasses_kind_old F _ _ (r := r) (Nat.lt_succ_of_lt hr)) ?_
-      exact alloc_kind_old hr
+    · split
+      · refine Eq.trans (setDMIfMasses_kind_old F _ _ (r := r) (Nat.lt_succ_of_lt hr)) ?_
+        exact alloc_kind_old hr
+      · rfl
+  | generate k => exact alloc_kind_old hr
   | symmetrizeFc level =>
     simp only [step, inPlace]; split
     · rfl
     · exact setDMIfMasses_kind_old F (s.h.write _ _) _ (r := r) hr
   | symmetrizeFcSpaceGroup =>
-    simp only [step, inPlace]; split
+    simp only [step]; split
     · rfl
-    · exact setDMIfMasses_kind_old F (s.h.write _ _) _ (r := r) hr
+    · next a ha =>
+      split
+      · rfl
+      · simp only [inPlace, ha]; exact setDMIfMasses_kind_old F (s.h.write _ _) _ (r := r) hr
   | cutoff c =>
     simp only [step, inPlace]; split
     · rfl
@@ -611,8 +715,7 @@ theorem step_kind_old (F : Fns) (s : St) (op : Op) (r : ArrRef) (hr : r < s.h.ne
       · rfl
   | copy => rfl
   | callerMutates a v => simp only [step]; split <;> rfl
-  | query q =>
-    cases q <;> simp only [step] <;> (try rfl) <;> (repeat' split) <;> rfl
+  | query q => rw [query_heap]
 
 theorem Coherent.reach_lt {F : Fns} {s : St} (hc : Coherent F s) {r : ArrRef} (hr : Reach s.o r) :
     r < s.h.next := by
@@ -704,12 +807,15 @@ theorem step_fc (F : Fns) (s : St) (op : Op) (r : ArrRef) (hr : (step F s op).1.
       · simp only [Option.some.injEq] at h; right; left; rw [h]
       · exact Or.inr (Or.inr (Nat.le_of_eq h.symm))
     · exact Or.inl hr
-  | produceFc =>
+  | produceFc c =>
     simp only [step] at hr; split at hr
     · exact Or.inl hr
-    · rcases setDMIfMasses_fc F _ _ hr with h | h
-      · simp only [Option.some.injEq] at h; exact Or.inr (Or.inr (Nat.le_of_eq h))
-      · right; right; rw [h]; exact Nat.le_succ _
+    · split at hr
+      · rcases setDMIfMasses_fc F _ _ hr with h | h
+        · simp only [Option.some.injEq] at h; exact Or.inr (Or.inr (Nat.le_of_eq h))
+        · right; right; rw [h]; exact Nat.le_succ _
+      · exact Or.inl hr
+  | generate k => exact Or.inl hr
   | symmetrizeFc level =>
     simp only [step, inPlace] at hr; split at hr
     · exact Or.inl hr
@@ -717,11 +823,15 @@ theorem step_fc (F : Fns) (s : St) (op : Op) (r : ArrRef) (hr : (step F s op).1.
       · exact Or.inl h
       · exact Or.inr (Or.inr (Nat.le_of_eq h.symm))
   | symmetrizeFcSpaceGroup =>
-    simp only [step, inPlace] at hr; split at hr
+    simp only [step] at hr; split at hr
     · exact Or.inl hr
-    · rcases setDMIfMasses_fc F _ _ hr with h | h
-      · exact Or.inl h
-      · exact Or.inr (Or.inr (Nat.le_of_eq h.symm))
+    · next a ha =>
+      split at hr
+      · exact Or.inl hr
+      · simp only [inPlace, ha] at hr
+        rcases setDMIfMasses_fc F _ _ hr with h | h
+        · exact Or.inl h
+        · exact Or.inr (Or.inr (Nat.le_of_eq h.symm))
   | cutoff c =>
     simp only [step, inPlace] at hr; split at hr
     · exact Or.inl hr
@@ -749,9 +859,7 @@ theorem step_fc (F : Fns) (s : St) (op : Op) (r : ArrRef) (hr : (step F s op).1.
     · split at hr <;> exact Or.inl hr
   | copy => exact Or.inl hr
   | callerMutates a v => simp only [step] at hr; split at hr <;> exact Or.inl hr
-  | query q =>
-    left
-    cases q <;> simp only [step] at hr <;> (repeat' split at hr) <;> exact hr
+  | query q => left; rw [(query_params F s q).1] at hr; exact hr
 
 /-! ### the constructor option is never changed -/
 theorem setDM_fsf (F : Fns) (h : Heap) (o : Obj) : (setDM F h o).2.1.fsf = o.fsf := by
@@ -772,9 +880,13 @@ theorem step_fsf (F : Fns) (s : St) (op : Op) : (step F s op).1.o.fsf = s.o.fsf 
   | produceFcWith f => simp only [step]; split <;> simp [setDMIfMasses_fsf]
   | newArr v own k => rfl
   | setFc a => simp only [step]; split <;> simp [setDMIfMasses_fsf]
-  | produceFc => simp only [step]; split <;> simp [setDMIfMasses_fsf]
+  | produceFc c => simp only [step]; split <;> (try split) <;> simp [setDMIfMasses_fsf]
+  | generate k => rfl
   | symmetrizeFc level => simp only [step, inPlace]; split <;> simp [setDMIfMasses_fsf]
-  | symmetrizeFcSpaceGroup => simp only [step, inPlace]; split <;> simp [setDMIfMasses_fsf]
+  | symmetrizeFcSpaceGroup =>
+    simp only [step]; split
+    · rfl
+    · next a ha => split <;> simp [inPlace, ha, setDMIfMasses_fsf]
   | cutoff c => simp only [step, inPlace]; split <;> simp [setDMIfMasses_fsf]
   | setNac a =>
     simp only [step]; split
@@ -787,7 +899,7 @@ theorem step_fsf (F : Fns) (s : St) (op : Op) : (step F s op).1.o.fsf = s.o.fsf 
     · split <;> rfl
   | copy => rfl
   | callerMutates a v => simp only [step]; split <;> rfl
-  | query q => cases q <;> simp only [step] <;> (try rfl) <;> (repeat' split) <;> rfl
+  | query q => exact (query_params F s q).2.2.2.2
 
 theorem run_fsf (F : Fns) (ops : List Op) : ∀ s : St, (run F s ops).o.fsf = s.o.fsf := by
   induction ops with
@@ -802,8 +914,12 @@ theorem setDM_abs (F : Fns) (h : Heap) (o : Obj) (hf : o.fsf = false)
     abs ⟨(setDM F h o).1, (setDM F h o).2.1⟩ = abs ⟨h, o⟩ := by
   unfold setDM
   split
-  · next hfc => simp [abs, hfc]
-  · next a hfc hm => simp [abs]
+  · next hfc =>
+    simp only [abs, hfc, Option.map_none, Spec.mk.injEq, true_and]
+    funext d; cases d <;> rfl
+  · next a hfc hm =>
+    simp only [abs, Spec.mk.injEq, true_and]
+    funext d; cases d <;> rfl
   · next a m hfc hm =>
     have hcells : ∀ r, r < h.next → (keepOrCopy F o.fsf h a).1.bumpId.cells r = h.cells r :=
       fun r hr => kc_cells_old hr
@@ -811,7 +927,8 @@ theorem setDM_abs (F : Fns) (h : Heap) (o : Obj) (hf : o.fsf = false)
     have e2 := map_cells_congr (h := h) (h' := (keepOrCopy F o.fsf h a).1.bumpId) o.dataset (fun r hr => hcells r (h3 r hr))
     have e3 : (keepOrCopy F o.fsf h a).1.bumpId.cells (keepOrCopy F o.fsf h a).2 = h.cells a := by
       rw [hf]; exact kc_cells_ref
-    simp only [abs, Option.map_some, e1, e2, e3, hfc]
+    simp only [abs, Option.map_some, e1, e2, e3, hfc, Spec.mk.injEq, true_and]
+    funext d; cases d <;> rfl
 
 /-! ### the object's dataset is always its own deep copy -/
 theorem setDM_ds (F : Fns) (h : Heap) (o : Obj) : (setDM F h o).2.1.dataset = o.dataset := by
@@ -841,18 +958,25 @@ theorem step_ds (F : Fns) (s : St) (op : Op) (r : ArrRef) (hr : (step F s op).1.
     simp only [step] at hr; split at hr
     · rw [setDMIfMasses_ds] at hr; exact Or.inl hr
     · exact Or.inl hr
-  | produceFc =>
+  | produceFc c =>
     simp only [step] at hr; split at hr
     · exact Or.inl hr
-    · rw [setDMIfMasses_ds] at hr; exact Or.inl (by simpa using hr)
+    · split at hr
+      · rw [setDMIfMasses_ds] at hr; exact Or.inl (by simpa using hr)
+      · exact Or.inl hr
+  | generate k =>
+    simp only [step, Option.some.injEq] at hr; exact Or.inr (Nat.le_of_eq hr)
   | symmetrizeFc level =>
     simp only [step, inPlace] at hr; split at hr
     · exact Or.inl hr
     · rw [setDMIfMasses_ds] at hr; exact Or.inl hr
   | symmetrizeFcSpaceGroup =>
-    simp only [step, inPlace] at hr; split at hr
+    simp only [step] at hr; split at hr
     · exact Or.inl hr
-    · rw [setDMIfMasses_ds] at hr; exact Or.inl hr
+    · next a ha =>
+      split at hr
+      · exact Or.inl hr
+      · simp only [inPlace, ha] at hr; rw [setDMIfMasses_ds] at hr; exact Or.inl hr
   | cutoff c =>
     simp only [step, inPlace] at hr; split at hr
     · exact Or.inl hr
@@ -872,8 +996,6 @@ theorem step_ds (F : Fns) (s : St) (op : Op) (r : ArrRef) (hr : (step F s op).1.
       · exact Or.inl hr
   | copy => exact Or.inl hr
   | callerMutates a v => simp only [step] at hr; split at hr <;> exact Or.inl hr
-  | query q =>
-    left
-    cases q <;> simp only [step] at hr <;> (repeat' split at hr) <;> exact hr
+  | query q => left; rw [(query_params F s q).2.2.2.1] at hr; exact hr
 
 end PhononModel.C15
